@@ -90,3 +90,39 @@ func C20rounding(p *load.Program, run *report.Run) {
 	run.Rule("rounding-discipline", "every division/shift of a count in vole and bmr is a ceil idiom, a checked exact division, a quotient/remainder pair, or has its remainder handled (a byte size of floor(bits/8) drops the top bits of an element)")
 	lints.Rounding(p, run, []string{"vole", "bmr"}, nil, map[string]string{})
 }
+
+var keptState = map[string]string{
+	"ot.COT.iknpS":           "the extension sender is created once per initialised instance by design; its stream state is decided by prg-lockstep and mitccrh-schedule",
+	"ot.COT.iknpR":           "as iknpS",
+	"ot.ROT.iknpS":           "as COT.iknpS",
+	"ot.ROT.iknpR":           "as COT.iknpS",
+	"circuit.Streaming.tmp":  "the temporary wire store is grown on demand and reused by every streamed circuit; stream-garble-forms reads every slot as stale before it is written",
+	"circuit.StreamEval.tmp": "as Streaming.tmp on the evaluator side (stream-eval-forms)",
+	"gmw.Network.output":     "set by the first received output share of a run and XOR-accumulated; the share algebra rule (output-reconstruction) decides its value from the statement that resets it in run",
+}
+
+func keptStateRule(p *load.Program, run *report.Run, pkgs []string) {
+	run.Rule("kept-state-inventory", "every reference-typed field that a method of the package creates on first use and keeps (if x.f == nil / len(x.f) != n { x.f = ... }) is in the inventory of kept state with the rule that covers its contents; an unlisted one is undecided")
+	lints.LazyState(p, run, pkgs, keptState)
+}
+
+// Kept-state inventory per property (histories: repeated batches, runs, reuse).
+func C06kept(p *load.Program, run *report.Run) { keptStateRule(p, run, []string{"ot"}) }
+func C10kept(p *load.Program, run *report.Run) {
+	keptStateRule(p, run, []string{"gmw"})
+	run.Floor("kept-fields", 1)
+}
+func C20kept(p *load.Program, run *report.Run) { keptStateRule(p, run, []string{"vole", "bmr"}) }
+func C17kept(p *load.Program, run *report.Run) {
+	keptStateRule(p, run, []string{"circuit"})
+	run.Floor("kept-fields", 2)
+}
+func C11kept(p *load.Program, run *report.Run) { keptStateRule(p, run, []string{"p2p"}) }
+func C18kept(p *load.Program, run *report.Run) { keptStateRule(p, run, []string{"sha2pc"}) }
+
+// C04rand: the random source of labels and offsets is read in full.
+func C04rand(p *load.Program, run *report.Run) {
+	run.Rule("short-read", "a Read on a caller-supplied io.Reader whose count is discarded must be io.ReadFull: a short read leaves the rest of a label (or of the offset R) zero")
+	lints.ShortRead(p, run, []string{"ot", "circuit"}, map[string]bool{"ot/label.go": true, "ot/co.go": true, "ot/co_helpers.go": true, "ot/cot.go": true, "ot/rot.go": true, "ot/iknp.go": true, "ot/rsa.go": true, "circuit/garble.go": true, "circuit/garbler.go": true, "circuit/stream_garble.go": true})
+	run.Floor("read-sites", 1)
+}
